@@ -55,6 +55,17 @@ CHECKS = {
    ref='4 (C15)',
    note='trusted: simulator fakes and virtual clock; eps = 0.45 virtual seconds; "reached" = at or beyond the earliest requested state or final',
    technique='deterministic simulation: virtual-clock trajectories + concurrent wait calls, timing oracle with bounded liveness'),
+
+ 'C12': dict(
+   text='seeded search over interleavings of task submissions (unbound / naming known, unknown, removed pilots), add/remove/re-add pilot commands, pilot state notifications and completion bulks against the real RoundRobin/Backfilling scheduler component (work loop, control listener, state listener); oracle against a sequential reference: forwarded exactly once, to the named pilot, never to an unknown / stably removed pilot, round-robin balance per bulk, backfilling eligibility window, high-water mark and usage returning to zero, bounded liveness (eligible pilot => forwarded) at quiescence. Sampling, not proof.',
+   ref='4 (C12)',
+   note='trusted: simulator fakes; TaskManager/pmgr/agents are played by the driver; membership and pilot-state changes count as in flux until the next sync point',
+   technique='deterministic simulation: seeded op sequences + schedule search (3 component threads), sequential reference model'),
+ 'C16': dict(
+   text='seeded search over message streams in a network of 1 client + 1-4 pilot sides with the real crosswire forwarders on every side: real advance() of agent/client components with default and explicit fwd, raw control/state messages with every fwd x origin combination, partitions (held, not lost) and late joins; oracle = per-side delivery-count model (origin side exactly 1, other connected sides exactly 1 iff forwarded and not foreign, else 0; no echo; bounded forwarder publications; network becomes idle). Sampling, not proof.',
+   ref='4 (C16)',
+   note='trusted: simulated pubsub transport (copies per subscriber, FIFO per link); the proxy service process itself is not run; Session objects are built without their constructor',
+   technique='deterministic simulation: in-memory pubsub network, delivery-count model oracle'),
 }
 
 NA = [
